@@ -148,15 +148,15 @@ def rule_r5(ctx):
 
 
 def run(ctx):
-    rule_r1(ctx)
-    rule_r2(ctx)
-    rule_r3(ctx)
+    ctx.guard(rule_r1)
+    ctx.guard(rule_r2)
+    ctx.guard(rule_r3)
     c04.rule_r5.__wrapped__ = None
     # respondent routing state (same rule body as C04.R5 / R4, reported under C07)
     r4 = ctx.rule  # noqa
-    c04.rule_r4(ctx)
-    c04.rule_r5(ctx)
+    ctx.guard(c04.rule_r4)
+    ctx.guard(c04.rule_r5)
     for rr in ctx.rules:
         if rr.id.startswith("C04."):
             rr.id = rr.id.replace("C04.", "C07.S")
-    rule_r5(ctx)
+    ctx.guard(rule_r5)
